@@ -84,11 +84,21 @@ func checkC01(c *Ctx) {
 		}
 		return keys[i].Cfg < keys[j].Cfg
 	})
-	// fault-free references must themselves return
-	for _, k := range keys {
-		r := refs[k]
-		c.Ev.Distinct("ref|" + k.Scenario + k.Cfg)
-		c.evalCrash(&faultCase{sc: r.Sc, cfg: r.Cfg, spec: r.Spec, label: "fault-free"}, r.Res, r)
+	// fault-free references must themselves return; a scenario whose reference does not
+	// is reported once and gets no fault cases (each would only burn its step budget)
+	{
+		var alive []refKey
+		for _, k := range keys {
+			r := refs[k]
+			c.Ev.Distinct("ref|" + k.Scenario + k.Cfg)
+			c.evalCrash(&faultCase{sc: r.Sc, cfg: r.Cfg, spec: r.Spec, label: "fault-free"}, r.Res, r)
+			if cl, _, _ := crashOf(r.Res); cl == "" {
+				alive = append(alive, k)
+			} else {
+				c.Ev.Probes["references_not_returning"]++
+			}
+		}
+		keys = alive
 	}
 
 	var cases []*faultCase
